@@ -165,7 +165,7 @@ func c15Keys(c *work.Ctx) {
 	paddings := []struct {
 		name  string
 		total int
-	}{{"<=8 fields", 0}, {"9..16 fields", 9}, {">16 fields", 17}}
+	}{{"<=8 fields", 0}, {"9..16 fields", 9}, {">16 fields", 17}, {">64 fields", 70}}
 	long64 := strings.Repeat("x", 64)
 	long65 := strings.Repeat("x", 65)
 	c.SelfSharded = true
@@ -181,6 +181,11 @@ func c15Keys(c *work.Ctx) {
 		ks := append([]string(nil), keys...)
 		for _, n := range shape {
 			ks = append(ks, n+"a", n+"A", n+"1", strings.ToUpper(n), strings.ToLower(n))
+			// the same characters with a higher code point whose low byte is the character's (U+0161 for 'a',
+			// U+1F661 likewise): a matcher that keeps one byte of an escaped rune takes them for the name
+			if r := []rune(n); len(r) > 0 && r[0] < 0x80 {
+				ks = append(ks, string(rune(0x100+int(r[0])))+string(r[1:]), string(rune(0x1F600+int(r[0])))+string(r[1:]), string(r[:len(r)-1])+string(rune(0x2000+int(r[len(r)-1]))))
+			}
 			if r := []rune(n); len(r) > 1 {
 				ks = append(ks, string(r[:1]))
 			}
